@@ -64,6 +64,8 @@ def run(ctx, rep):
         rep.guarded("R04-SIG", lambda: br.rule_sig(t, rep, "R04-SIG", oracle_wrong=SIG_ORACLE_WRONG))
         rep.guarded("R04-DIVMOD", lambda: r_divmod(sh, rep, t))
     rep.guarded("R04-TAGS", lambda: r_tags(sh, rep))
+    rep.rule("R04-TAGSITE", "the constructor-tag ranges are spelled out only in the functions R04-TAGS evaluates", floor=3)
+    rep.guarded("R04-TAGSITE", lambda: r_tagsites(sh, rep, "R04-TAGSITE"))
     rep.guarded("R04-GATE", lambda: r_gate(sh, rep))
 
 
@@ -296,3 +298,59 @@ def r_gate(sh, rep):
         for a in pat_alts(arm["pat"]):
             lang = last(pat_head(a))
             rep.check(ps and ps[0] == gate_spec(lang, 99), "R04-GATE", "for_language#%s" % lang, sh.loc(RT, arm), "for_language(%s) gives %s, the latest-protocol variant is %s" % (lang, ps, gate_spec(lang, 99)))
+
+
+# ---------------------------------------------------------------------------------------------------------
+# tag-map sites: the compact-constructor tag ranges are written down in exactly the functions R04-TAGS evaluates
+# ---------------------------------------------------------------------------------------------------------
+TAG_LITERALS = {"121", "1280", "1400", "127"}
+TAG_MAP_OWNERS = {
+    ("crates/uplc/src/machine/runtime.rs", "convert_tag_to_constr"),
+    ("crates/uplc/src/machine/runtime.rs", "convert_constr_to_tag"),
+    ("crates/uplc/src/ast.rs", "Data::constr"),
+}
+
+
+TAG_SITE_REVIEWED = {
+    ("crates/aiken-lang/src/test_framework.rs", "Prng::from_result"): "`121 + Prng::SEEDED/REPLAYED` with the two constant constructor indices 0 and 1 (< 7): only the first compact range, no range boundary involved",
+}
+
+
+def r_tagsites(sh, rep, rid):
+    """who-may-write rule over the *knowledge* of the tag map: a second hand-written copy of the ranges (a printer, a
+    decoder, a builder) is a place where `1280..1400` can be off by one without R04-TAGS seeing it. Every other site must
+    go through the converters. Only integer literals that take part in a range, a range pattern, a comparison or +/- with a
+    tag-like operand count (a bare 127 elsewhere is not a tag)."""
+    found = {}
+    for rel in sh.files():
+        if not rel.startswith("crates/") or "/tests/" in rel or rel.endswith("tests.rs"):
+            continue
+        fj = sh.file(rel)
+        for q, f in all_fns(fj):
+            hits = []
+            for n in walk(f["body"]) if "body" in f else []:
+                lits = []
+                if n["k"] == "Range":
+                    lits = [x for x in (n.get("lo"), n.get("hi")) if x]
+                elif n["k"] == "Binary" and n["op"] in ("+", "-", "<", "<=", ">", ">=", "=="):
+                    lits = [n["l"], n["r"]]
+                elif n["k"] == "PRange":
+                    lits = [x for x in (n.get("lo"), n.get("hi")) if x]
+                vals = [x["v"] for x in lits if isinstance(x, dict) and x.get("k") == "Lit" and x.get("lk") == "int"]
+                if any(v in ("121", "1280", "1400") for v in vals) or (vals.count("127") and any(v in TAG_LITERALS - {"127"} for v in vals)):
+                    hits.append(n)
+            if hits:
+                found[(rel, q)] = hits
+    owners_seen = set()
+    for (rel, q), hits in sorted(found.items()):
+        owner = next((o for o in TAG_MAP_OWNERS if o[0] == rel and (q == o[1] or q.endswith("::" + o[1]))), None)
+        if owner:
+            owners_seen.add(owner)
+            rep.ok(rid, "tag-map-site#%s" % owner[1], sh.loc(rel, hits[0]), why="evaluated by R04-TAGS", sample={"literal_sites": len(hits)})
+        elif any(k[0] == rel and (q == k[1] or q.endswith("::" + k[1]) or q.startswith(k[1])) for k in TAG_SITE_REVIEWED) and not any(x.get("k") in ("Range", "PRange") or any(isinstance(y, dict) and y.get("k") == "Lit" and y.get("v") in ("1280", "1400") for y in (x.get("l"), x.get("r"), x.get("lo"), x.get("hi"))) for x in hits):
+            why = next(v for k, v in TAG_SITE_REVIEWED.items() if k[0] == rel)
+            rep.ok(rid, "tag-map-site#reviewed#%s" % q, sh.loc(rel, hits[0]), why="reviewed: " + why)
+        else:
+            rep.bad(rid, "tag-map-site#%s#%s" % (rel.split("/")[-1], q), sh.loc(rel, hits[0]), "%s in %s spells out the constructor-tag ranges (121.. / 1280..1400) itself instead of calling convert_tag_to_constr / convert_constr_to_tag / Data::constr: a private copy of the map that R04-TAGS does not evaluate — an off-by-one here changes which Data value is printed, decoded or built" % (q, rel))
+    for o in sorted(TAG_MAP_OWNERS - owners_seen):
+        rep.bad(rid, "tag-map-site#%s#missing" % o[1], o[0], "expected the tag ranges in %s (anchor of R04-TAGS)" % o[1])
